@@ -49,7 +49,7 @@ def fault_case(rng):
         same, tail = '', ''
         pos = len(pre); must = set(w[:3]); msg = 'missing end of maths'
     elif kind == 'arg':
-        name = rng.choice(['\\footnote', '\\section', '\\textbf', '\\caption'])
+        name = rng.choice(['\\footnote', '\\section', '\\textbf', '\\caption', '\\label', '\\ref', '\\index', '\\begin', '\\end', '\\cite', '\\pageref', '\\vspace'])
         if name == '\\textbf':       # an undeclared macro does not parse arguments: the brace simply opens a group
             name = '\\footnote'
         fault = name + '{'
